@@ -415,7 +415,7 @@ func init() {
 				dst := g.varOf(as.Lhs[0])
 				copied := false
 				for _, cl := range g.callsTo("go/format.Source") {
-					if cl.Pos() > as.End() && g.varOf(cl.Args[0]) == dst && g.enclosingLoop(cl) == g.enclosingLoop(as) {
+					if startOf(cl) >= endOf(as) && g.varOf(cl.Args[0]) == dst && g.enclosingLoop(cl) == g.enclosingLoop(as) {
 						copied = true
 					}
 				}
